@@ -32,7 +32,7 @@ os.makedirs("%s/%s/tests" % (wt, crate), exist_ok=True)
 shutil.copy(src + "/demo_test.rs", "%s/%s/tests/%s.rs" % (wt, crate, name))
 cmd = "cargo test --offline -p %s %s --test %s 2>&1 | tail -15" % (crate, feat, name)
 rc, out_with = sh(cmd, wt)
-fails_with = "test result: FAILED" in out_with or "panicked" in out_with or "could not compile" in out_with
+fails_with = any(k in out_with for k in ("test result: FAILED", "panicked", "could not compile", "SIGABRT", "overflowed its stack", "error: test failed", "SIGSEGV"))
 ran.append("with change: %s -> %s" % (cmd, "FAILS (as required)" if fails_with else "does NOT fail:\n" + out_with[-600:]))
 sh("git apply -R %s/patch.diff" % src, wt)
 rc, out_wo = sh(cmd, wt)
